@@ -103,6 +103,7 @@ func execImpl(c *props.Case) (got []hist.Obs, herr string) {
 		return r.got, r.herr
 	case <-time.After(limit):
 		hangs++
+		hist.OpAbandon() // reported here; the watchdog must not end the process because of the same operation
 		return []hist.Obs{{Kind: "bad", Msg: fmt.Sprintf("HANG: the implementation did not return within %s while executing this history", limit)}}, ""
 	}
 }
